@@ -19,10 +19,14 @@ import (
 // ---------- client operations
 
 type cOp struct {
-	T    string // init | req | roots | sendInitialized | terminate | restart | close
-	E    string // init: ok | netErr | http500 | rpcErr | badResult | dropNotif
-	K    string // req: ListTools | CallTool | ListPrompts | GetPrompt | ListResources | ReadResource
-	Fail bool   // req: the peer answers with a JSON-RPC error
+	T string // init | req | roots | sendInitialized | terminate | restart | close
+	E string // init: ok | netErr | http500 | rpcErr | badResult | dropNotif
+	//             close: "" | dead (stdio: the child was killed and reaped first) | netErr (HTTP kinds: the server is gone, every
+	//             round trip is refused) | brokenStream (legacy SSE: the server ended the event stream first)
+	//             terminate: "" | del500 (the DELETE is answered 500) | netErr
+	K     string // req: ListTools | CallTool | ListPrompts | GetPrompt | ListResources | ReadResource
+	Fail  bool   // req: the peer answers with a JSON-RPC error
+	Fault bool   // close, filled in by the run: the transport's close() reported an error (what Close returned says so)
 }
 
 func (o cOp) json() map[string]any {
@@ -31,6 +35,16 @@ func (o cOp) json() map[string]any {
 		return map[string]any{"t": "init", "e": o.E}
 	case "req":
 		return map[string]any{"t": "req", "k": o.K, "fail": o.Fail}
+	case "terminate":
+		if o.E != "" {
+			return map[string]any{"t": "terminate", "fault": true, "env": o.E}
+		}
+	case "close":
+		m := map[string]any{"t": "close", "fault": o.Fault}
+		if o.E != "" {
+			m["env"] = o.E
+		}
+		return m
 	}
 	return map[string]any{"t": o.T}
 }
@@ -70,6 +84,8 @@ type histResult struct {
 	handshake  bool
 	refused    bool
 	closeRaces int
+	// Close under a fault environment: how many, and how many of them made the transport's close() report an error
+	closeEnvs, closeFaults int
 }
 
 type peers struct {
@@ -134,6 +150,7 @@ func (l *stdioLog) take(need int) []string {
 }
 
 func runClientHistory(p *peers, kind string, ops []cOp, idx int) histResult {
+	ops = append([]cOp{}, ops...) // the run records in it whether a Close met a transport error
 	res := histResult{kind: kind, ops: ops}
 	info := mcp.Implementation{Name: "verif", Version: "1"}
 	tag := fmt.Sprintf("%s-%d", kind, idx)
@@ -237,10 +254,28 @@ func runClientHistory(p *peers, kind string, ops []cOp, idx int) histResult {
 		case "sendInitialized":
 			e = hc.SendInitialized(ctx)
 		case "terminate":
+			if op.E != "" && ct != nil {
+				ct.setEnv(op.E) // del500: the DELETE is answered 500; netErr: the server is gone
+			}
 			e = hc.TerminateSession(ctx)
 		case "restart":
 			e = sc.RestartProcess(ctx)
 		case "close":
+			switch {
+			case op.E == "dead" && sc != nil:
+				// the server process dies and is reaped before Close: Cmd.Wait (the transport's watcher) closes the pipes
+				if pid := sc.GetProcessID(); pid > 0 {
+					syscall.Kill(pid, syscall.SIGKILL)
+					for deadline := time.Now().Add(5 * time.Second); sc.IsProcessRunning() && time.Now().Before(deadline); {
+						time.Sleep(200 * time.Microsecond)
+					}
+					time.Sleep(2 * time.Millisecond) // Wait closes the pipes right after reaping; either order is handled below
+				}
+			case op.E == "netErr" && ct != nil:
+				ct.setEnv("netErr")
+			case op.E == "brokenStream" && kind == "sse":
+				breakSSEStream(tag)
+			}
 			e = conn.Close()
 		}
 		cancel()
@@ -251,13 +286,25 @@ func runClientHistory(p *peers, kind string, ops []cOp, idx int) histResult {
 		if op.T == "init" && r == "rpcError" {
 			r = "failed"
 		}
-		if op.T == "close" && e != nil && sc != nil && strings.HasPrefix(e.Error(), "close errors: [") {
-			// StdioClient.Close races with its own processWatcher (two Cmd.Wait calls on one Cmd): it sometimes stalls 5 s and then
-			// reports the failed kill of the already dead child, sometimes finds a pipe already closed by the other Wait.
-			// Timing-dependent and outside the statement of C16 (the client is uninitialized and disconnected either way, which is
-			// checked below): counted in the evidence, not compared.
+		if op.T == "close" {
+			// Close passes the error of the transport's close() on: that is the fault alphabet of the model's Close event.  The stdio
+			// transport reports one when the child is already dead and reaped (pipes closed by Cmd.Wait) or a kill failed — also,
+			// timing-dependent, on a live child (Close races with the transport's own watcher): the run records which environment it
+			// met.  Whatever Close returns, the client must be uninitialized and disconnected afterwards (checked below).
 			r = "ok"
-			res.closeRaces++
+			if e != nil {
+				r = "failed"
+				ops[i].Fault = true
+				if op.E == "" {
+					res.closeRaces++
+				}
+			}
+			if op.E != "" {
+				res.closeEnvs++
+				if e != nil {
+					res.closeFaults++
+				}
+			}
 		}
 		var wire []string
 		if ct != nil {
@@ -327,6 +374,8 @@ func runClientHistory(p *peers, kind string, ops []cOp, idx int) histResult {
 	}
 	return res
 }
+
+var closeStats struct{ races, envs, faults int }
 
 func cOpsJSON(ops []cOp) []any {
 	out := []any{}
@@ -466,17 +515,27 @@ func clientJobs(c *hk.Ctx) []job {
 	return jobs
 }
 
-func runClientSide(c *hk.Ctx) {
+func newPeers(c *hk.Ctx) (*peers, func()) {
 	p := &peers{streamable: newFakeStreamable(), sse: newFakeSSE(), logDir: filepath.Join(c.Dir, "lifecycle-stdio-logs")}
 	os.MkdirAll(p.logDir, 0o755)
-	defer os.RemoveAll(p.logDir)
-	defer func() {
+	return p, func() {
+		os.RemoveAll(p.logDir)
 		p.streamable.CloseClientConnections()
 		p.streamable.Close()
 		p.sse.CloseClientConnections()
 		p.sse.Close()
-	}()
-	jobs := clientJobs(c)
+	}
+}
+
+func runClientSide(c *hk.Ctx) {
+	p, done := newPeers(c)
+	defer done()
+	runClientJobs(c, p, clientJobs(c))
+}
+
+// runClientJobs runs the histories on the three real clients (stdio ones on their own wide pool), applies the statement
+// to the observations and emits one model line per history.
+func runClientJobs(c *hk.Ctx, p *peers, jobs []job) {
 	results := make([]histResult, len(jobs))
 	var wg sync.WaitGroup
 	next := make(chan int, len(jobs))
@@ -510,11 +569,13 @@ func runClientSide(c *hk.Ctx) {
 	pool(8, nextHTTP)
 	pool(96, nextStdio)
 	wg.Wait()
-	stalls := 0
 	for _, r := range results {
-		stalls += r.closeRaces
+		closeStats.races += r.closeRaces
+		closeStats.envs += r.closeEnvs
+		closeStats.faults += r.closeFaults
 	}
-	c.SetExtra("stdio_close_returned_race_error", stalls)
+	c.SetExtra("stdio_close_returned_race_error", closeStats.races)
+	c.SetExtra("close_under_fault_environment", map[string]int{"closes": closeStats.envs, "transport_close_reported_error": closeStats.faults})
 	for i, r := range results {
 		for _, v := range r.violations {
 			c.Violate(v)
